@@ -572,6 +572,7 @@ static htp_cfg_t *build_cfg(const Plan &p) {
     htp_config_set_server_personality(cfg, (enum htp_server_personality_t) c.get("personality", HTP_SERVER_IDS));
     if (c.has("field_hard")) htp_config_set_field_limits(cfg, (size_t) c.get("field_soft", 9000), (size_t) c.get("field_hard", 18000));
     if (c.has("max_tx")) htp_config_set_max_tx(cfg, (uint32_t) c.get("max_tx", 0));
+    if (c.has("hdr_limit")) htp_config_set_number_headers_limit(cfg, (uint32_t) c.get("hdr_limit", 1024));
     if (c.has("log_level")) htp_config_set_log_level(cfg, (enum htp_log_level_t) c.get("log_level", HTP_LOG_NOTICE));
     if (c.has("allow_space_uri")) htp_config_set_allow_space_uri(cfg, (int) c.get("allow_space_uri", 0));
     htp_config_set_tx_auto_destroy(cfg, (int) c.get("auto_destroy", 0));
@@ -718,6 +719,12 @@ static void per_call_invariants(Exec *ex, ConnState &c, int dir, const CallRec &
         violate(ex, "C10", "C10.in_header_over_cap", strfmt("len=%zu", bstr_len(cp->in_header)));
     if (cp->out_header && bstr_len(cp->out_header) >= HTP_MAX_HEADER_FOLDED + hard)
         violate(ex, "C10", "C10.out_header_over_cap", strfmt("len=%zu", bstr_len(cp->out_header)));
+    // the cap on the number of header fields of one message (request fields and trailers share a table, so do the response's)
+    for (int s2 = 0; s2 < 2; s2++) {
+        htp_tx_t *t2 = s2 == 0 ? cp->in_tx : cp->out_tx; if (!t2) continue;
+        htp_table_t *tb = s2 == 0 ? t2->request_headers : t2->response_headers;
+        if (tb && htp_table_size(tb) > (size_t) ex->cfg->number_headers_limit) violate(ex, "C10", s2 ? "C10.response_header_count_over_limit" : "C10.request_header_count_over_limit", strfmt("fields=%zu limit=%u", htp_table_size(tb), ex->cfg->number_headers_limit));
+    }
     if (ex->cfg->max_tx > 0 && cp->conn && cp->conn->transactions) {
         size_t n = htp_list_size(cp->conn->transactions);
         if (n > (size_t) ex->cfg->max_tx + 1) violate(ex, "C10", "C10.tx_count_over_max", strfmt("n=%zu max_tx=%u", n, ex->cfg->max_tx));
